@@ -259,6 +259,64 @@ class _DF:
         return f
 
 
+class _TArr:
+    """typed stand-in for a field's HDF5 dataset: write_part = cast to the dataset's dtype, copy, append"""
+    def __init__(self, dtype):
+        self.dtype = _np.dtype(dtype)
+        self.parts = []
+
+    def write_part(self, part):
+        self.parts.append(_np.array(part).astype(self.dtype))      # h5py casts and copies at once
+
+    def complete(self):
+        pass
+
+    def get(self):
+        return _np.concatenate(self.parts) if self.parts else _np.zeros(0, dtype=self.dtype)
+
+
+class _TField:
+    def __init__(self, dtype=None, keys=None):
+        if dtype is None:
+            self.indices, self.values = _TArr('int64'), _TArr('uint8')
+            self.data = self.values            # IndexedStringField.data.complete() is all the importers use
+        else:
+            self.data = _TArr(dtype)
+        self.keys = dict(keys or {})
+
+
+class _TDataset:
+    session = None
+
+
+class _TDF:
+    """memory stand-in for the destination dataframe of a typed import (storage itself is property C01)"""
+    def __init__(self):
+        self.fields = {}
+        self.dataset = _TDataset()
+
+    def _add(self, name, f):
+        if name in self.fields:
+            raise ValueError('field %s exists' % name)
+        self.fields[name] = f
+        return f
+
+    def create_indexed_string(self, name, timestamp=None, chunksize=None):
+        return self._add(name, _TField())
+
+    def create_categorical(self, name, nformat, key, timestamp=None, chunksize=None):
+        return self._add(name, _TField(nformat, key))
+
+    def create_numeric(self, name, nformat, timestamp=None, chunksize=None):
+        return self._add(name, _TField(nformat))
+
+    def create_fixed_string(self, name, length, timestamp=None, chunksize=None):
+        return self._add(name, _TField('S%d' % length))
+
+    def create_timestamp(self, name, timestamp=None, chunksize=None):
+        return self._add(name, _TField('float64'))
+
+
 def setup():
     global _np, _C, _P, _FI, _S, _ds, _tmp
     import warnings, tempfile
@@ -295,6 +353,23 @@ def _definition(d):
     raise ValueError(k)
 
 
+def _read_col_mem(df, name, d):
+    k = d[0]
+    F = df.fields
+    ints = lambda a: [int(x) for x in a.get()]
+    if k == 'str':
+        return [ints(F[name].indices), ints(F[name].values)]
+    if k == 'fix':
+        return [list(F[name].data.get().tobytes())]
+    if k == 'cat':
+        return [ints(F[name].data)]
+    if k == 'leaky':
+        ft = F[name + '_freetext']
+        return [ints(F[name].data), ints(ft.indices), ints(ft.values)]
+    fl = name + '_valid'
+    return [ints(F[name].data), ints(F[fl].data) if fl in F else []]
+
+
 def _read_col(df, name, d):
     k = d[0]
     ints = lambda a: [int(x) for x in a]
@@ -313,8 +388,27 @@ def _read_col(df, name, d):
     return [ints(df[name].data[:]), ints(df[fl].data[:]) if fl in df else []]
 
 
+def _run_typed_mem(case, path):
+    np = _np
+    df = _TDF()
+    names = [k.strip() for k in case['hdr']]
+    defs = case['defs']
+    imap = imap_of(case)
+    if case.get('offs') is None:
+        schema = {names[j]: _definition(defs[j]) for j in range(len(names))}
+        _P.read_csv_with_schema_dict(path, df, schema, 0.0, None, None, case['crs'])
+        rows = len(df.fields['j_valid_from'].data.get())
+    else:
+        imps = [_definition(defs[j])._importer(None, df, names[j], 0.0) for j in imap]
+        rows = int(_C.read_file_using_fast_csv_reader(path, case['crs'], np.array(case['offs'], dtype=np.int64),
+                                                      list(imap), imps, None))
+    return [rows, [_read_col_mem(df, names[j], defs[j]) for j in imap]]
+
+
 def _run_typed(case, path):
     np = _np
+    if case.get('mem'):
+        return _run_typed_mem(case, path)
     _n[0] += 1
     name = 'y%d_%d' % (os.getpid(), _n[0])
     df = _ds.create_dataframe(name)
@@ -496,6 +590,7 @@ def features(case, model):
 
 def typed_features(case, tr):
     f = ['typed:' + ('driver-direct(tight budgets)' if case.get('offs') is not None else 'through-parsers')]
+    f.append('typed:destination-' + ('memory-stand-in' if case.get('mem') else 'hdf5'))
     tab, defs = case['tab'], case['defs']
     per_pass, acc = [], 0            # the records each kernel call committed
     for e in tr:
@@ -611,8 +706,9 @@ TYPED_KINDS = {
 }
 
 
-def typ_case(hdr, tab, style, nl, crs, defs, offs=None, imap=None, eol='\n'):
+def typ_case(hdr, tab, style, nl, crs, defs, offs=None, imap=None, eol='\n', mem=False):
     c = {'op': 'typ', 'hdr': hdr, 'tab': tab, 'style': style, 'nl': nl, 'crs': crs, 'defs': defs}
+    if mem: c['mem'] = True          # destination = memory stand-in (fast); else a real HDF5 dataframe (~30 ms)
     if offs is not None: c['offs'] = offs
     if imap is not None: c['imap'] = imap
     if eol != '\n': c['eol'] = eol
@@ -645,7 +741,7 @@ def gen_typed(tier, rng):
                 tab = [[c, 'r%d' % i] if first else ['r%d' % i, c] for i, c in enumerate(seq)]
                 nl = n % 3 != 0
                 for crs in crs_values(hdr, tab, 'min', nl, extra=0, cap=None if big else 3):
-                    yield typ_case(hdr, tab, 'min', nl, crs, defs)
+                    yield typ_case(hdr, tab, 'min', nl, crs, defs, mem=(n % 8 != 0))
     # TB. tight value budgets with typed importers (driver called directly): values-full, re-entry at the saved
     #     offset, passes that commit no record, the importer allocating from the regrown column_offsets
     for kname in (kinds if big else ('leaky', 'cat', 'fix', 'bool', 'int', 'str')):
@@ -654,7 +750,8 @@ def gen_typed(tier, rng):
             tab = [['r%d' % i, c] for i, c in enumerate(seq)]
             for budget in ((1, 2, 3, 5) if big else (1, 3)):
                 for crs in crs_values(HDRS[2], tab, 'min', True, extra=0, cap=3 if big else 2):
-                    yield typ_case(HDRS[2], tab, 'min', True, crs, [['str'], d], offs=[0, budget, 2 * budget])
+                    n += 1
+                    yield typ_case(HDRS[2], tab, 'min', True, crs, [['str'], d], offs=[0, budget, 2 * budget], mem=(n % 8 != 0))
     # TC. structured random: 2..5 columns of random kinds, 3..24 rows (many reader passes), both quoting styles,
     #     CRLF, production budgets through parsers or random tight budgets through the driver
     nrand = (3000 if big else 500) * (3 if hot.changed() else 1)
@@ -677,7 +774,7 @@ def gen_typed(tier, rng):
                     continue
                 tab = [['r%d' % i, 'z' * L if i % 2 == 0 else pool[i % len(pool)]] for i in range(5)]
                 for k in (1, 3, 5):
-                    yield typ_case(HDRS[2], tab, 'min', True, passes_crs(HDRS[2], tab, 'min', True, k), [['str'], d])
+                    yield typ_case(HDRS[2], tab, 'min', True, passes_crs(HDRS[2], tab, 'min', True, k), [['str'], d], mem=True)
 
 
 def rand_typed(rng, r, passes, kinds=None):
@@ -711,7 +808,7 @@ def rand_typed(rng, r, passes, kinds=None):
             offs.append(offs[-1] + rng.randint(1, 12))
         if rng.random() < 0.3:
             imap = [j for j in range(c) if rng.random() < 0.7]
-    return typ_case(hdr, tab, style, nl, crs, defs, offs, imap, eol)
+    return typ_case(hdr, tab, style, nl, crs, defs, offs, imap, eol, mem=rng.random() < 0.6)
 
 
 def gen(tier, rng):
@@ -858,10 +955,12 @@ RULE = ('exhaustive small scope: every table over a 9-cell grammar pool (empty, 
         'cells x every supported chunk_row_size (the smallest reads one record per pass, so importer state crosses >= 3 passes); '
         'every 3-row sequence with 1- and 3-byte value budgets through the driver (passes that commit no record); seeded random '
         'tables of 2..5 typed columns x 3..24 rows read in 3..12 passes; lengths / pass counts around every new small literal of the '
-        'tree under test; each typed case costs ~10 ms (HDF5). Non-trivial = '
+        'tree under test; 1 typed case in 8 (random part: 4 in 10) writes into a real HDF5 dataframe (~30 ms), the others into a '
+        'casting, copying memory stand-in. Non-trivial = '
         'the call parses at least the header of a generated table.')
 TRUSTED = ['csv.DictReader header sniffing (number of columns, field names), np.fromfile, guess_encoding: exercised, not modelled',
-           'HDF5 field storage (write_part = append): property C01; op=drv uses an append-only stand-in, op=csv the real fields',
+           'HDF5 field storage (write_part = append): property C01; op=drv uses an append-only stand-in, op=csv the real fields, '
+           'op=typ the real fields or (mem) a stand-in that casts to the field dtype and copies on write_part as h5py does',
            "Python's csv.reader is the reference parser for text-level cases; table-level cases are their own reference"]
 ASSUMPTIONS = ['stop_after_rows is None', 'column names are distinct',
                'typed columns (op=typ): string, fixed string, categorical with and without free text, bool, int8..int32 - what a '
